@@ -44,12 +44,32 @@ def _multi_history(rng: random.Random, k: int, first_session: bool):
         labels.append(("Write", list(w)))
     for p in range(1, k + 1):
         labels.append(("ExitFiller", [p]))
+    if rng.random() < 0.3:
+        # the call fails (a writer function raises after its filler was closed) and is retried with the same plans
+        labels.append(("MultiAbort", [rng.randint(1, k)]))
+        labels.append(("MultiBegin", [k]))
+        for p, pl in plans.items():
+            for w in pl:
+                labels.append(("Write", list(w)))
+        for p in range(1, k + 1):
+            labels.append(("ExitFiller", [p]))
     labels += [("MultiEnd", []), ("MultiDone", [])]
     if rng.random() < 0.4:  # a second multi-writer call on top
         labels.append(("MultiBegin", [2]))
         labels += [("Write", [1, "train", "None", "good"]), ("Write", [2, "test", "None", "good"]),
                    ("ExitFiller", [1]), ("ExitFiller", [2]), ("MultiEnd", []), ("MultiDone", [])]
     return labels
+
+
+def _aborted_names(labels) -> set:
+    used, cur, out = 0, [], set()
+    for name, args in labels:
+        if name == "MultiBegin":
+            cur = [f"u{i}" for i in range(used + 1, used + args[0] + 1)]
+            used += args[0]
+        elif name == "MultiAbort":
+            out |= set(cur)
+    return out
 
 
 def run(ctx: Ctx) -> None:
@@ -67,6 +87,8 @@ def run(ctx: Ctx) -> None:
           ("multi_k3_atomic_2splits", c(Atomic=True, FillerDirs=FS({()}), MaxSessions=1, MaxWrites=2, MaxK=3)),
           ("multi_k3_fs", c(Splits=FS({"train"}), Atomic=False, FillerDirs=FS({()}), MaxSessions=1, MaxWrites=1,
                             MaxK=3)),
+          ("multi_k2_fs_failed_call_and_retry", c(Splits=FS({"train"}), Atomic=False, FillerDirs=FS({()}),
+                                                  MaxSessions=2, MaxWrites=1, MaxK=2, MaxAborts=1)),
           ("multi_k2_fs_2splits", c(Atomic=False, FillerDirs=FS({()}), MaxSessions=1, MaxWrites=2, MaxK=2))]
     if not q:
         mc += [("multi_k3_fs_2writes", c(Splits=FS({"train"}), Atomic=False, FillerDirs=FS({()}), MaxSessions=1,
@@ -129,6 +151,11 @@ def run(ctx: Ctx) -> None:
             if s["states"] and "final" in o:
                 a = {tuple(f["p"]): f["c"] for f in o["final"]["files"]}
                 b = {tuple(f["p"]): f["c"] for f in s["states"][-1]["files"]}
+                # files left behind by a failed call are unlisted leftovers (how many writers of the failed call ran
+                # differs between a process pool and a plain loop); everything else must be identical
+                gone = _aborted_names(job["labels"])
+                a = {p: c for p, c in a.items() if not gone & set(p)}
+                b = {p: c for p, c in b.items() if not gone & set(p)}
                 d = dsreal.diff_files(b, a)
                 if d:
                     ctx.violation(f"C09|kind=not-sequential|fmt={job['fmt']}", f"{tag}: the dataset differs from the "
